@@ -7,7 +7,7 @@ from spydrnet.ir.outerpin import OuterPin as BaseOuterPin
 from .universe import Universe
 from . import probes
 
-NAMES = ["a", "b", "A", "ab", "aB", "a_1", "n0", "B", "c"]
+NAMES = ["a", "b", "A", "ab", "aB", "a_1", "n0", "B", "c", "long_" + "n" * 300]      # (names have no length limit under either policy)
 BAD_IDS = ["9a", "a-b", "", "x" * 300, "a b", "&", "_a", "caf\u00e9", "a\u0661", "sig\u00b2", "&\u00e9t\u00e9",
            "x" * 256, "&" + "y" * 256]          # (one character beyond the length limits)
 IDS = ["a", "A", "b", "B", "ab", "AB", "&9", "x_1", "&_Q9", "L" + "x" * 254, "&" + "y" * 255]    # (the last two: exactly at the limits)
@@ -868,7 +868,7 @@ class Engine:
         k = self.r.randrange(4)
         key = self.r.choice(["k", "u.v", "EDIF.properties"])
         if k <= 1:
-            v = self.r.choice([1, "s", [1, 2], {"a": [1]}, True])
+            v = self.r.choice([1, "s", [1, 2], {"a": [1]}, True, 1.0, 0, False, None, 2, 2.0])     # (== but not the same: 1 / True / 1.0, 0 / False)
 
             def fn():
                 x[key] = v
